@@ -7,8 +7,10 @@ use serde::de::DeserializeOwned;
 use serde::Serialize;
 use serde_json::{json, Value};
 
+pub mod acyclic;
 pub mod adjlist;
 pub mod adjsut;
+pub mod append;
 pub mod graphmap;
 pub mod matrix;
 pub mod visit;
@@ -155,6 +157,12 @@ pub fn get(name: &str) -> Option<Box<dyn Engine>> {
         "graphmap" => Box::new(H(graphmap::GraphMapEngine { visit: false })),
         "matrix" => Box::new(H(matrix::MatrixEngine { visit: false })),
         "matrix-visit" => Box::new(H(matrix::MatrixEngine { visit: true })),
+        "csr" => Box::new(H(append::CsrEngine { visit: false })),
+        "csr-visit" => Box::new(H(append::CsrEngine { visit: true })),
+        "list" => Box::new(H(append::ListEngine { visit: false })),
+        "list-visit" => Box::new(H(append::ListEngine { visit: true })),
+        "acyclic-graph" => Box::new(H(acyclic::AcyclicEngine { stable: false })),
+        "acyclic-stable" => Box::new(H(acyclic::AcyclicEngine { stable: true })),
         "graphmap-visit" => Box::new(H(graphmap::GraphMapEngine { visit: true })),
         _ => return None,
     })
